@@ -65,11 +65,15 @@ pub const CORPUS: &[&str] = &[
     // intermediate references whose step / section index exceeds the number of ingredients
     "one\n\n> note\n\ntwo\n\nthree\n\nUse @&(3)chopped things{} and @&(~2)that{1%kg}\n",
     "= A\nstep\n= B\nstep\n= C\nUse @&(=2)mix{} then @&(=~1)other{}\n",
+    // a front matter whose YAML contains what the Cooklang lexer would read as a comment opener
+    "---\nrange: [-18, -12]\nyield: [-1]\n---\nMix @flour{500%g} and @water{300%ml}.\n\nRest -] it.\n",
+    // a definition at the very end of a line, a note on its reference (the label sits after the definition)
+    "@a{1}\n@&a{}(x)\n",
 ];
 
 fn edit_symbols(tier: Tier) -> Vec<&'static str> {
     match tier {
-        Tier::Quick => vec!["a", "1", " ", "\n", "@", "~", "{", "}", "(", "%", "|", "&", "-", "=", ">", ":", "\\", "é", "---\n", "[-", "\u{a0}", "\u{2009}"],
+        Tier::Quick => vec!["a", "1", " ", "\n", "@", "~", "{", "}", "(", "%", "|", "&", "-", "=", ">", ":", "\\", "é", "---\n", "[-", "\u{a0}", "\u{2009}", "\u{feff}", "\u{200b}"],
         Tier::Thorough => a_tok_wide().syms,
     }
 }
